@@ -9,6 +9,7 @@ package main
 import (
 	"bytes"
 	"encoding/json"
+	"flag"
 	"fmt"
 	"io/ioutil"
 	"math"
@@ -20,7 +21,9 @@ import (
 	"time"
 
 	"go.dedis.ch/onet/v3/log"
+	"go.dedis.ch/onet/v3/simul"
 	"go.dedis.ch/onet/v3/simul/monitor"
+	"go.dedis.ch/onet/v3/simul/platform"
 
 	"verifharness/lib"
 )
@@ -661,6 +664,151 @@ func isRecording(op string) bool {
 	return op == "measure" || op == "measures" || op == "direct"
 }
 
+// ---- the simulation driver itself: simul.RunTest (simul/build.go) creates the
+// global result set and one per `buckets` entry of the run configuration, binds
+// them to the monitor, starts it, runs the platform and returns the result sets
+// in the order global, bucket 0, bucket 1, ...  The platform here is a fake one
+// whose Start plays the hosts: it connects to that monitor through the client
+// API of measure.go and reports the measures of the case.
+
+type fakePlatform struct {
+	port     int
+	measures []wireMeasure
+}
+
+func (f *fakePlatform) Configure(*platform.Config)              {}
+func (f *fakePlatform) Build(build string, arg ...string) error { return nil }
+func (f *fakePlatform) Cleanup() error                          { return nil }
+func (f *fakePlatform) Deploy(*platform.RunConfig) error        { return nil }
+func (f *fakePlatform) Start(args ...string) error {
+	addr := "127.0.0.1:" + strconv.Itoa(f.port)
+	var err error
+	deadline := time.Now().Add(transportDeadline())
+	for {
+		if err = monitor.ConnectSink(addr); err == nil || time.Now().After(deadline) {
+			break
+		}
+		time.Sleep(2 * time.Millisecond)
+	}
+	if err != nil {
+		return err
+	}
+	for _, m := range f.measures {
+		monitor.RecordSingleMeasureWithHost(m.Name, m.Value, m.Host)
+	}
+	monitor.EndAndCleanup()
+	return nil
+}
+
+// Wait returns once the monitor has closed its listener, i.e. has finished with
+// its last connection (every measure is processed before that).
+func (f *fakePlatform) Wait() error {
+	deadline := time.Now().Add(transportDeadline())
+	for time.Now().Before(deadline) {
+		c, err := net.Dial("tcp", "127.0.0.1:"+strconv.Itoa(f.port))
+		if err != nil {
+			return nil
+		}
+		c.Close()
+		time.Sleep(2 * time.Millisecond)
+	}
+	return fmt.Errorf("the monitor did not finish")
+}
+
+// runConfig of a runtest case; the static fields in the order NewStats(rc,
+// "hosts", "bf") lists them: the two defaults, then the others sorted
+func runTestConfig(in input) (*platform.RunConfig, [][2]string) {
+	var bs []string
+	for _, o := range in.Ops {
+		if o.Op == "bucket" {
+			bs = append(bs, strings.Join(o.Rules, "-"))
+		}
+	}
+	rc := platform.NewRunConfig()
+	rc.Put("hosts", "8")
+	rc.Put("bf", "2")
+	rc.Put("depth", "3")
+	st := [][2]string{{"hosts", "8"}, {"bf", "2"}}
+	if len(bs) > 0 {
+		rc.Put("buckets", strings.Join(bs, " "))
+		st = append(st, [2]string{"buckets", strings.Join(bs, " ")})
+	}
+	st = append(st, [2]string{"depth", "3"})
+	return rc, st
+}
+
+func runRunTest(in input) (outs []outObs) {
+	rc, st := runTestConfig(in)
+	ln, err := net.Listen("tcp", "127.0.0.1:0")
+	if err != nil {
+		panic("harness: no free port")
+	}
+	port := ln.Addr().(*net.TCPAddr).Port
+	ln.Close()
+	if err := flag.Set("mport", strconv.Itoa(port)); err != nil {
+		panic("harness: simul has no -mport flag any more: " + err.Error())
+	}
+	fp := &fakePlatform{port: port}
+	i := 0
+	for ; i < len(in.Ops) && (in.Ops[i].Op == "bucket" || in.Ops[i].Op == "wire"); i++ {
+		if o := in.Ops[i]; o.Op == "wire" {
+			fp.measures = append(fp.measures, wireMeasure{o.Name, o.V, o.Host})
+		} else if o.Idx != len(outs) || i != o.Idx {
+			panic("harness: runtest buckets must come first and be numbered 0,1,2,...")
+		}
+		outs = append(outs, outObs{Kind: "none"})
+	}
+	type res struct {
+		stats []*monitor.Stats
+		err   string
+	}
+	ch := make(chan res, 1)
+	go func() {
+		defer func() {
+			if p := recover(); p != nil {
+				ch <- res{nil, "panic: " + fmt.Sprint(p)}
+			}
+		}()
+		stats, err := simul.RunTest(fp, rc)
+		if err != nil {
+			ch <- res{nil, err.Error()}
+			return
+		}
+		ch <- res{stats, ""}
+	}()
+	var r res
+	select {
+	case r = <-ch:
+	case <-time.After(3 * transportDeadline()):
+		r = res{nil, "RunTest did not return"}
+	}
+	if r.err != "" {
+		transportFailed = true
+		for len(outs) < len(in.Ops) {
+			outs = append(outs, outObs{Kind: "transport", Panic: "simul.RunTest: " + r.err})
+		}
+		return outs
+	}
+	w := &world{rc: rc.Map(), nstatic: len(st), objs: r.stats}
+	for ; i < len(in.Ops); i++ {
+		o := in.Ops[i]
+		if o.Op != "header" && o.Op != "values" && o.Op != "string" && o.Op != "collect" {
+			panic("harness: runtest cases read the returned result sets only")
+		}
+		if o.Obj >= len(w.objs) {
+			// RunTest returned fewer result sets than global + buckets
+			outs = append(outs, outObs{Kind: "values", Fields: []string{}, Rows: []snapObs{{Name: "<result set not returned>"}}})
+			continue
+		}
+		x := w.guarded(o)
+		outs = append(outs, x)
+		if x.Kind == "crash" || x.Kind == "deadlock" {
+			break
+		}
+	}
+	return outs
+}
+
 func runAPI(in input) []outObs {
 	w := newWorld(in)
 	var outs []outObs
@@ -845,7 +993,10 @@ func run(raw json.RawMessage) lib.Case {
 	sort.Slice(in.Statics, func(i, j int) bool { return in.Statics[i][0] < in.Statics[j][0] })
 	var outs []outObs
 	var notes []string
-	if in.Mode == "tcp" {
+	if in.Mode == "runtest" {
+		_, in.Statics = runTestConfig(in)
+		outs = runRunTest(in)
+	} else if in.Mode == "tcp" {
 		outs, notes = runTCP(in)
 	} else {
 		outs = runAPI(in)
@@ -1426,6 +1577,36 @@ func maxInt(a, b int) int {
 	return b
 }
 
+// the simulation driver: simul.RunTest with a `buckets` run configuration and
+// hosts reporting with a host index; every returned result set is written
+func genRunTest(rng *rand.Rand) input {
+	in := input{Kind: "runtest", Mode: "runtest", Conns: 1}
+	nb := rng.Intn(4)
+	for b := 0; b < nb; b++ {
+		var rules []string
+		for k := 1 + rng.Intn(2); k > 0; k-- {
+			lo := rng.Intn(6)
+			rules = append(rules, fmt.Sprintf("%d:%d", lo, lo+1+rng.Intn(3)))
+		}
+		in.Ops = append(in.Ops, opIn{Op: "bucket", Idx: b, Rules: rules})
+	}
+	ms := genMeasures(rng, "wire", 1+rng.Intn(2), 10)
+	for i := range ms {
+		ms[i].Host = rng.Intn(8) - 1
+		if strings.HasPrefix(strings.ToLower(ms[i].Name), "end") {
+			ms[i].Name = "x" + ms[i].Name
+		}
+	}
+	in.Ops = append(in.Ops, ms...)
+	for j := 0; j <= nb; j++ {
+		if rng.Intn(4) == 0 {
+			in.Ops = append(in.Ops, opIn{Op: "string", Obj: j}) // the driver's log line
+		}
+		in.Ops = append(in.Ops, opIn{Op: "header", Obj: j}, opIn{Op: "values", Obj: j})
+	}
+	return in
+}
+
 // every sequence of at most maxLen read-out operations before the final write
 func exhaustiveReadouts(vals []float64, maxLen int) []interface{} {
 	kinds := []string{"collect", "string", "header", "values"}
@@ -1494,6 +1675,9 @@ func generate(rng *rand.Rand, tier string) []interface{} {
 	for i := 0; i < 24*scale; i++ {
 		ins = append(ins, genTCPTime(rng))
 	}
+	for i := 0; i < 14*scale; i++ {
+		ins = append(ins, genRunTest(rng))
+	}
 	// the long concurrent histories are spread evenly over the run (and so over
 	// the Coq shards, which are evaluated in parallel)
 	var heavy []interface{}
@@ -1561,6 +1745,7 @@ func corpus() []interface{} {
 		// average starting with the same set, then a late measure, then the
 		// first average is written
 		input{Kind: "avg-reuse", Mode: "api", Statics: st, Ops: avgReuseWitness()},
+		runTestWitness(),
 		// host-bound time measures and buckets
 		input{Kind: "tcp-time", Mode: "tcp", Statics: st, Conns: 1, CountOnly: true, Ops: []opIn{
 			{Op: "bucket", Idx: 0, Rules: []string{"0:1"}}, {Op: "bucket", Idx: 1, Rules: []string{"1:2"}},
@@ -1568,6 +1753,19 @@ func corpus() []interface{} {
 			{Op: "time", Name: "round", Host: -1, Rec: 1},
 			{Op: "header", Obj: 0}, {Op: "values", Obj: 0}, {Op: "get", Idx: 0}, {Op: "get", Idx: 1}}},
 	}
+}
+
+// simul.RunTest, buckets "0:2 2:3-3:4", hosts 0..3 reporting 10,20,30,40
+func runTestWitness() input {
+	in := input{Kind: "runtest", Mode: "runtest", Conns: 1, Ops: []opIn{
+		{Op: "bucket", Idx: 0, Rules: []string{"0:2"}}, {Op: "bucket", Idx: 1, Rules: []string{"2:3", "3:4"}}}}
+	for h := 0; h < 4; h++ {
+		in.Ops = append(in.Ops, opIn{Op: "wire", Name: "m", V: float64(10 * (h + 1)), Host: h})
+	}
+	for j := 0; j < 3; j++ {
+		in.Ops = append(in.Ops, opIn{Op: "header", Obj: j}, opIn{Op: "values", Obj: j})
+	}
+	return in
 }
 
 func avgReuseWitness() []opIn {
